@@ -43,8 +43,8 @@ ASSUMPTIONS = ['the cache dict argument is exempt from the purity clause (mutate
                'float results compared with relative/absolute 1e-9 across representations (summation order may differ between layouts), indices exactly',
                'static verdicts are only reported when not refuted by execution; sites never executed are counted as static-only',
                'rdp.plot_frame (writes a PNG, prints) is exercised statically only']
-BOUNDS = {'quick': {'dynamic': 'Y013 n=6 complete (729 curves) x all registered argument patterns x 5 representations', 'static': 'all reference sites of all 15 modules + __init__'},
-          'thorough': {'dynamic': 'A1 n=6 (4096 curves) + Y013 n=7 (2187 curves)', 'static': 'same'}}
+BOUNDS = {'quick': {'dynamic': 'Y013 n=6 complete (729 curves) x all registered argument patterns x 5 representations', 'large integers': 'Y013 n=5 complete re-embedded as x*2^32,y*2^32 / x*2^33 / y*2^33 / offset 2^40 on both axes (int64 products overflow, float64 exact)', 'static': 'all reference sites of all 15 modules + __init__'},
+          'thorough': {'dynamic': 'A1 n=6 (4096 curves) + Y013 n=7 (2187 curves)', 'large integers': 'as quick plus 2^45, 2^31 scalings and x = 10^12 + 1000 i', 'static': 'same'}}
 TECHNIQUE = 'exhaustive enumeration of public functions x argument patterns x array representations on the real code; exhaustive enumeration of reference sites resolved by a name-resolution model with dynamic conformance replay'
 LEVEL_TEXT = ('Model checking: (dynamic) every public function on every curve of the profile in C/F/strided/int64/read-only representations with before/after argument comparison, '
               'repeat-call and cross-representation agreement; (static) every name, module attribute and intra-package call site resolved against the live modules, the resolver being '
@@ -212,7 +212,7 @@ def public_functions():
 # representations, comparison
 
 def integral(a):
-    return a.dtype.kind == 'f' and a.size > 0 and bool(np.all(np.isfinite(a))) and bool(np.all(a == np.round(a))) and bool(np.all(np.abs(a) < 2 ** 40))
+    return a.dtype.kind == 'f' and a.size > 0 and bool(np.all(np.isfinite(a))) and bool(np.all(a == np.round(a))) and bool(np.all(np.abs(a) < 2 ** 53))
 
 
 def represent(a, rep):
@@ -480,10 +480,20 @@ def run_static(res):
     res.notes['functions_with_argument_builders'] = len(set(funcs) & set(SPECS))
 
 
+BIGINT = [curves.scaled(curves.Y013, 2.0 ** 32, 2.0 ** 32), curves.scaled(curves.Y013, 2.0 ** 33, 1.0), curves.scaled(curves.Y013, 1.0, 2.0 ** 33),
+          curves.register(curves.Profile('Y013@2^40', (2 ** 40,), (1,), (2 ** 40, 2 ** 40 + 1, 2 ** 40 + 3))),
+          curves.scaled(curves.Y013, 2.0 ** 45, 2.0 ** 45), curves.scaled(curves.Y013, 2.0 ** 31, 2.0 ** 31),
+          curves.register(curves.Profile('Y013@1e12', (10 ** 12,), (1000,), (0, 10 ** 6, 3 * 10 ** 6)))]
+
+
 def units(tier, seed):
     plan = [('Y013', 6, 48)] if tier == 'quick' else [('A1', 6, 256), ('Y013', 7, 128)]
     b = curves.bonus(seed, curves.A1)
     plan.append((b.name, 5, 8))
+    # "the same results for int64 and float64 representations of the same values": integer coordinates whose
+    # products leave the int64 range (timestamps, byte counts) - exact in float64 (< 2^53), wrapped in int64
+    for bp in BIGINT if tier == 'thorough' else BIGINT[:4]:
+        plan.append((bp.name, 5, 8))
     u = [('dynamic', prof, n, k, K) for prof, n, K in plan for k in range(K)]
     u.append(('static',))
     return u
